@@ -497,10 +497,16 @@ func (m *mon) c08() {
 		for _, v := range b.stream {
 			got[v]++
 		}
-		if m.clean() && m.finalWorkerStatus() == 1 && !m.e.noFinalDrain {
-			if !b.streamClosed {
-				m.add("C08", "stream-not-closed", "batch b%d (%d items): stream was never closed; read %v", b.idx, len(b.items), b.stream)
+		allOver := true
+		for _, s := range b.items {
+			if !(s.rejected || s.purgedAt >= 0 || len(s.tExit) > 0 || len(s.closeNil) > 0 || !s.accepted && b.tRet >= 0) {
+				allOver = false
 			}
+		}
+		if !b.streamClosed && allOver && b.tRet >= 0 && !m.s.Livelock && len(m.s.Panics) == 0 {
+			m.add("C08", "stream-not-closed", "batch b%d (%d items, all rejected / cancelled / finished): stream was never closed; read %v", b.idx, len(b.items), b.stream)
+		}
+		if m.clean() && m.finalWorkerStatus() == 1 && !m.e.noFinalDrain {
 			for k, n := range want {
 				if got[k] != n {
 					m.add("C08", "missing-result", "batch b%d: expected %d x %q on the stream, got %d (stream %v)", b.idx, n, k, got[k], b.stream)
